@@ -20,11 +20,12 @@ EXPLANATION = (
     "component has and the target constructor accepts; (R4) every explicit raise in the transformation methods is "
     "SchemaInitError or ValueError; (R3 also reads **splat forwarding: a comprehension over Column.properties may "
     "exclude keys by name only, never by the truthiness of the value); (R5) no transformation re-keys a column by "
-    "pop-and-insert (which moves it to the end of the mapping and breaks column order / the rename-back law); (R6) update_column(s) apply the caller's overrides unfiltered (None removes a property); (R7) add_columns admits the new columns through the schema constructor so that invalid requests raise. NOT decided: that the transformed schema accepts exactly the transformed "
+    "pop-and-insert (which moves it to the end of the mapping and breaks column order / the rename-back law); (R6) update_column(s) apply the caller's overrides unfiltered (None removes a property); (R7) add_columns admits the new columns through the schema constructor so that invalid requests raise. (R8) definite assignment: no function of the schema container / component API modules reads a local that a branch-only path from its entry leaves unassigned (CFG may-analysis, optimistic about try bodies and loop bodies, correlated guards pruned) - an UnboundLocalError there would escape the transformation. " 
+    "NOT decided: that the transformed schema accepts exactly the transformed "
     "frames; inverse laws on values."
 )
 LEVEL_RULE = "one obligation per (method) / (constructor parameter) / (constructor call, attribute) / raise"
-FLOORS = {"R1": 10, "R2": 28, "R3": 20, "R4": 6, "R5": 10, "R6": 2, "R7": 1}
+FLOORS = {"R1": 10, "R2": 28, "R3": 20, "R4": 6, "R5": 10, "R6": 2, "R7": 1, "R8": 1}
 
 COLUMN_CLASSES = ["pandera/api/pandas/components.py::Column", "pandera/api/polars/components.py::Column"]
 # attributes that a conversion between Column and Index legitimately sets itself / cannot carry over
@@ -357,6 +358,8 @@ def r7_add_columns_admission(ctx):
 
 
 def run(ctx):
+    from ..defassign import check_modules
+    check_modules(ctx, "R8", ('pandera/api/dataframe/container.py', 'pandera/api/pandas/container.py', 'pandera/api/polars/container.py', 'pandera/api/base/schema.py', 'pandera/api/dataframe/components.py', 'pandera/api/pandas/components.py'), "escapes the schema transformation")
     r1_purity(ctx)
     r2_properties(ctx)
     r3_forwarding(ctx)
